@@ -405,14 +405,12 @@ func (g *Gen) transSel(e *Expr, env *TEnv) tvT {
 	// package-qualified name?
 	if e.Args[0].Op == "id" {
 		if _, isVar := env.vars[e.Args[0].Val]; !isVar && env.pkg != nil {
-			for _, imp := range env.pkg.Imports {
-				if imp.Name == e.Args[0].Val || (imp.Types != nil && imp.Types.Name() == e.Args[0].Val) {
-					obj := imp.Types.Scope().Lookup(e.Val)
-					if obj == nil {
-						g.fail("no %s in package %s", e.Val, imp.PkgPath)
-					}
-					return g.objTv(obj, env)
+			if imp := g.w.importByName(env.pkg, e.Args[0].Val); imp != nil && imp.Types != nil {
+				obj := imp.Types.Scope().Lookup(e.Val)
+				if obj == nil {
+					g.fail("no %s in package %s", e.Val, imp.PkgPath)
 				}
+				return g.objTv(obj, env)
 			}
 		}
 	}
@@ -582,11 +580,7 @@ func (g *Gen) resolveType(tx *TypeX, pkg *packages.Package) (types.Type, string)
 			pn := name[:i]
 			name = name[i+1:]
 			p = nil
-			for _, imp := range pkg.Imports {
-				if imp.Name == pn || (imp.Types != nil && imp.Types.Name() == pn) {
-					p = imp
-				}
-			}
+			p = g.w.importByName(pkg, pn)
 			if p == nil {
 				g.fail("unknown package %s in type %s", pn, tx.Name)
 			}
@@ -844,7 +838,8 @@ func (g *Gen) transCall(e *Expr, env *TEnv) tvT {
 			// assumed at a call site: the callee's new objects live in a range reserved for this call,
 			// hence differ from every object allocated before (by this function or by earlier calls)
 			env.freshTerms = append(env.freshTerms, r)
-			return boolTv(fmt.Sprintf("(and (>= %s %s) (< %s %s))", r, env.freshLo, r, env.freshHi))
+			g.needFldTag()
+			return boolTv(fmt.Sprintf("(and (>= %s %s) (< %s %s) (= (fldtag %s) 0))", r, env.freshLo, r, env.freshHi, r))
 		}
 		return boolTv(fmt.Sprintf("(>= %s %s)", r, refBound))
 	case "typeof":
